@@ -174,6 +174,63 @@ def dispatch_cascade(ctx):
             ctx.find(P, 'RF1-nmt-services', 'CONodeProcess', 'services:%s' % mode, m.loc('CONodeProcess', m.funcs['CONodeProcess'].line),
                      'in NMT mode %s the frame decoders of %s react, CiA 301 allows exactly %s'
                      % (mode, sorted(reacted), sorted(exp_dec[mode])))
+    # second pass with every decoder result bound: the claimant is the first decoder that recognises the frame
+    import itertools
+    NONE, ABRT, SIL = m.enum('CO_ERR_NONE'), m.enum('CO_ERR_SDO_ABORT'), m.enum('CO_ERR_SDO_SILENT')
+    dom = [('COSdoCheck', (0, 1)), ('COSdoResponse', (NONE, ABRT, SIL)), ('COCSdoCheck', (0, 1)), ('COCSdoResponse', (NONE, SIL)),
+           ('CONmtCheck', (-1, 0)), ('CONmtHbConsCheck', (-1, 5)), ('CORPdoCheck', (0, 1)), ('COSyncUpdate', (-1, 0))]
+    dom = [(n, v) for (n, v) in dom if n in m.funcs]
+    positive = {'COSdoCheck': lambda v: v != 0, 'COCSdoCheck': lambda v: v != 0, 'CONmtCheck': lambda v: v >= 0,
+                'CONmtHbConsCheck': lambda v: v >= 0, 'CORPdoCheck': lambda v: v != 0, 'COSyncUpdate': lambda v: v >= 0}
+    seen_bad = set()
+    for mode in MODES:
+        allowed = mt[mode]
+        if allowed == 0:
+            continue
+        for combo in itertools.product(*[v for (n, v) in dom]):
+            inputs = {'call:COIfCanRead': 1, 'node->Nmt.Allowed': allowed, 'call:COLssCheck': 0}
+            vals = {}
+            for (n, _), v in zip(dom, combo):
+                inputs['call:' + n] = v
+                vals[n] = v
+            trs = pe.run(inputs)
+            for t in trs:
+                ntr += 1
+                names = t.call_names()
+                decs = [n for n in names if n in DECODERS]
+                claimant = None
+                bad = None
+                for d_ in decs:
+                    if claimant is None:
+                        if positive[d_](vals[d_]):
+                            claimant = d_
+                    else:
+                        if (claimant, d_) == ('CONmtCheck', 'CONmtHbConsCheck'):
+                            continue
+                        bad = '%s still runs after %s recognised the frame: one frame is handled by two services' % (d_, claimant)
+                recv = names.count('COIfCanReceive')
+                sends = names.count('COIfCanSend')
+                if claimant is not None and recv:
+                    bad = 'a frame that %s recognised is also handed to the application callback' % claimant
+                if claimant is None and recv != 1:
+                    bad = 'unclaimed frame handed to the application %d times' % recv
+                if claimant is None and sends:
+                    bad = 'transmission although no service claimed the frame'
+                if claimant in ('COSdoCheck', 'COCSdoCheck'):
+                    rn = 'COSdoResponse' if claimant == 'COSdoCheck' else 'COCSdoResponse'
+                    want = 1 if vals.get(rn) in (NONE, ABRT) else 0
+                    if sends != want:
+                        bad = '%d frames sent for %s result %s' % (sends, rn, vals.get(rn))
+                elif claimant is not None and sends:
+                    bad = 'dispatcher transmits for %s' % claimant
+                if bad and bad not in seen_bad:
+                    seen_bad.add(bad)
+                    ctx.ob(P, 'RF2-cascade', 'CONodeProcess', 'mode %s results %s' % (mode, vals), None)
+                    ctx.find(P, 'RF2-cascade', 'CONodeProcess', 'claim:%s' % bad.split(':')[0][:60], m.loc('CONodeProcess', m.funcs['CONodeProcess'].line),
+                             '%s (mode %s, decoder results %s)' % (bad, mode, vals))
+                elif not bad:
+                    ctx.ob(P, 'RF2-cascade', 'CONodeProcess', 'mode %s claimant %s' % (mode, claimant), 'one service at most; leftover once',
+                           nontrivial=False)
     ctx.inst('RF2.cascade.traces', ntr)
     ctx.require_min(P, 'RF2-cascade', ntr, 40, 'dispatch traces')
     ctx.table('C09', 'decoders reacting per NMT mode', tbl)
